@@ -244,7 +244,8 @@ def answerIo : List String → Option String
   | ["counts", k, recs] =>
     -- C07 spec: every distinct canonical k-mer of the input with its multiplicity `countsOf`
     let k := k.toNat!
-    let all := ((recsOf recs).flatMap (canons k)).mergeSort (fun a b => decide (a ≤ b))
+    -- (beyond 5000 bytes the quadratic `canons` is replaced by the model's stream, equal to it by `kmerGen_eq_spec`)
+    let all := ((recsOf recs).flatMap fun r => if r.length > 5000 then (kmers k r).map (fun p => min p.1 p.2) else canons k r).mergeSort (fun a b => decide (a ≤ b))
     let tbl := rle all
     some (joinWith "|" ["ok", joinWith "," (tbl.map fun p => s!"{p.1}:{p.2}"), toString all.length,
       fmtHexList (tbl.map fun p => numericToKmer k p.1)])
